@@ -10,7 +10,7 @@ OPT = 'opt-14'
 
 GUARD = 'POMEROL_VERIF'
 
-BASE_FLAGS = ['-std=c++11', '-O1', '-S', '-emit-llvm', '-fno-vectorize', '-fno-slp-vectorize', '-fno-unroll-loops',
+BASE_FLAGS = ['-std=c++11', '-O1', '-S', '-emit-llvm', '-fno-pic', '-fno-vectorize', '-fno-slp-vectorize', '-fno-unroll-loops',
               '-DNDEBUG', '-DEIGEN_DONT_VECTORIZE', '-DBOOST_MULTI_INDEX_DISABLE_COMPRESSED_ORDERED_INDEX_NODES',
               '-D' + GUARD, '-Wno-everything',
               # Production builds get libstdc++'s <stdlib.h> wrapper (using std::abs; ...) through Eigen's SSE
